@@ -132,6 +132,48 @@ func scenarios(prop, tier string) []*Scenario {
 		for _, s := range r {
 			s.oracles = []oracle{oracleC11, oracleC01, oracleC08verdict}
 		}
+	case "C17":
+		r = append(r,
+			&Scenario{Name: "genesis/mark-unmark", Cfg: hdr.Config{MaxBranchDepth: 144}, N: pick(4, 5), Marks: 2, M: 1,
+				Maint: []hdr.Op{opReload}, Slots: []string{"a", "H"}},
+			&Scenario{Name: "genesis/mark+clean", Cfg: hdr.Config{MaxBranchDepth: 144}, N: pick(4, 5), Marks: pick(1, 2), M: 1,
+				Maint: []hdr.Op{opClean}},
+			&Scenario{Name: "genesis/configured-invalid", Cfg: hdr.Config{MaxBranchDepth: 144, Invalid: []string{"G/a/a"}}, N: pick(4, 5), Marks: 1, M: 1,
+				Maint: []hdr.Op{opReload}, Slots: []string{"a", "H"}},
+		)
+		for _, s := range r {
+			s.oracles = []oracle{oracleC17, oracleC08verdict}
+		}
+	case "C18":
+		r = append(r,
+			&Scenario{Name: "genesis/forks+clean+reload", Cfg: hdr.Config{MaxBranchDepth: 144}, N: pick(4, 5), M: 1,
+				Maint: []hdr.Op{opClean, opReload}},
+			&Scenario{Name: "genesis/prune-depth-3", Cfg: hdr.Config{MaxBranchDepth: 2}, N: pick(5, 6), M: 1,
+				Maint: []hdr.Op{{K: "cleand", D: 3}, {K: "reloadd", D: 3}}, Slots: []string{"a", "H"}},
+		)
+		for _, base := range bases(quick) {
+			r = append(r, &Scenario{Name: baseName(base), Cfg: hdr.Config{MaxBranchDepth: 144, Base: base}, N: 2, M: 1,
+				Maint: []hdr.Op{opClean}, Attach: []int{0, -1}, Slots: []string{"a", "H"}})
+		}
+		for _, s := range r {
+			s.oracles = []oracle{oracleC18}
+		}
+	case "C19":
+		r = append(r,
+			&Scenario{Name: "genesis/no-splits", Cfg: hdr.Config{MaxBranchDepth: 144}, N: pick(6, 7), M: 1,
+				Maint: []hdr.Op{opClean, opReload}},
+			&Scenario{Name: "genesis/synthetic-splits", Cfg: hdr.Config{MaxBranchDepth: 144, Splits: "synth"}, N: pick(6, 7), M: 1,
+				Maint: []hdr.Op{opClean}},
+			&Scenario{Name: "genesis/prune-depth-3", Cfg: hdr.Config{MaxBranchDepth: 2, Splits: "synth"}, N: pick(6, 7), M: 1,
+				Maint: []hdr.Op{{K: "cleand", D: 3}, {K: "reloadd", D: 3}}, Slots: []string{"a", "H"}},
+		)
+		for _, base := range bases(quick) {
+			r = append(r, &Scenario{Name: baseName(base), Cfg: hdr.Config{MaxBranchDepth: 144, Base: base}, N: 2, M: 1,
+				Maint: []hdr.Op{opClean}, Attach: []int{0, -1}, Slots: []string{"a", "H"}})
+		}
+		for _, s := range r {
+			s.oracles = []oracle{oracleC19}
+		}
 	case "C12":
 		r = append(r,
 			&Scenario{Name: "genesis/crash-in-clean-save", Cfg: hdr.Config{MaxBranchDepth: 144}, N: pick(5, 6), M: pick(2, 3),
